@@ -360,7 +360,7 @@ func checkC07(c *ev.Ctx) {
 	}
 	depth := 4
 	if c.Thorough() {
-		depth = 6
+		depth = 7 // depth 6 closes in ~7 min here; depth 7 may be cut by the internal deadline, which is reported as a cap
 	}
 	runBFS(c, func(root string) bfs.World { return newC07World(c, root) }, roots, depth, 0)
 }
